@@ -255,9 +255,12 @@ func (e *kvElection) handleWatchEvent(entry Entry) {
 		)
 
 		// Attempt takeover in a goroutine to avoid blocking watcher
-		e.wg.Add(1)
+		e.mu.RLock()
+		wg := e.wg
+		e.mu.RUnlock()
+		wg.Add(1)
 		go func() {
-			defer e.wg.Done()
+			defer wg.Done()
 			if err := e.attemptAcquire(); err != nil {
 				// Takeover failed - stay as follower
 				log.Debug("priority_takeover_failed",
